@@ -44,7 +44,9 @@ type Rec struct {
 	// Respond writes the response; default: 200 application/json {"backend":ID}.
 	Respond func(w http.ResponseWriter, r *http.Request, s *Seen)
 	// Models is the JSON served on /verif-models (and anything ending in it).
-	Models       func() string
+	Models func() string
+	// ModelsStatus, if set, gives the status code of the model-listing answer (0 = 200).
+	ModelsStatus func() int
 	HealthStatus int
 	inflight     int64
 }
@@ -92,6 +94,11 @@ func (b *Rec) handle(w http.ResponseWriter, r *http.Request) {
 	}
 	if strings.HasSuffix(r.URL.Path, "/verif-models") {
 		w.Header().Set("Content-Type", "application/json")
+		if b.ModelsStatus != nil {
+			if st := b.ModelsStatus(); st != 0 && st != 200 {
+				w.WriteHeader(st)
+			}
+		}
 		if b.Models != nil {
 			io.WriteString(w, b.Models())
 		} else {
